@@ -175,6 +175,16 @@ pub fn schema_doc(src: &mut Src) -> J {
             };
             o.insert(key, v);
         }
+        // now and then a wide object (16..48 more members, names shared between the objects
+        // of one document): size thresholds of map operations
+        if src.chance(36) {
+            let n = 12 + src.below(37);
+            let start = src.below(6);
+            for i in start..start + n {
+                let v = if src.chance(200) { J::int(src.range(-3, 40)) } else { J::Str(schema_string(src)) };
+                o.insert(format!("k{:02}", i), v);
+            }
+        }
         J::Obj(o)
     };
     m.insert("o".to_string(), small_obj(src));
@@ -182,6 +192,11 @@ pub fn schema_doc(src: &mut Src) -> J {
     let mut on = BTreeMap::new();
     for _ in 0..src.below(6) {
         on.insert(src.pick(&["a", "b", "c", "d", "e"]).to_string(), schema_number(src));
+    }
+    if src.chance(30) {
+        for i in 0..(14 + src.below(30)) {
+            on.insert(format!("k{:02}", i), schema_number(src));
+        }
     }
     m.insert("on".to_string(), J::Obj(on));
     m.insert("s".to_string(), J::Str(schema_string(src)));
@@ -303,11 +318,18 @@ impl Tg {
 
     /// Key expression for the by-functions, relative to an `objs` element.
     fn by_key(&self, src: &mut Src, d: usize) -> RefExpr {
-        match src.below(6) {
+        match src.below(8) {
             0 | 1 => f("k"),
             2 => f("id"),
             3 => self.gen(src, Ty::Num, Scope::ObjElem, d + 1),
             4 => self.gen(src, Ty::Str, Scope::ObjElem, d + 1),
+            // a key that itself calls a by-function (on lists built from the element)
+            6 => match src.below(4) {
+                0 => dot(call("max_by", vec![RefExpr::MultiList(vec![RefExpr::Current, RefExpr::Current]), expref(f("n"))]), f("n")),
+                1 => dot(RefExpr::Index(Some(b(call("sort_by", vec![RefExpr::MultiList(vec![RefExpr::Current]), expref(f("id"))]))), 0), f("id")),
+                2 => call("sum", vec![call("map", vec![expref(f("id")), RefExpr::MultiList(vec![RefExpr::Current, RefExpr::Current])])]),
+                _ => call("length", vec![call("sort_by", vec![proj(ProjKind::ListWild, f("t"), RefExpr::MultiHash(vec![("v".to_string(), RefExpr::Current)])), expref(f("v"))])]),
+            },
             _ => f("n"),
         }
     }
